@@ -112,6 +112,24 @@ def expected_params(x, col, src, ovr):
     return T, M, Wd
 
 
+def logicle_forward(y, T, M, W):
+    """data value at display coordinate y under the logicle equation the library documents (computed independently of
+    FlowCal.plot):  x = T 10^-(M-W) (10^(y-W) - p^2 10^(-(y-W)/p) + p^2 - 1),  p solving W = 2p log10(p)/(p+1)"""
+    if W == 0:
+        pp = 1.0
+    else:
+        lo_, hi_ = 1.0, 1e8
+        for _ in range(300):
+            mid = (lo_ + hi_) / 2
+            if 2 * mid * np.log10(mid) / (mid + 1) < W:
+                lo_ = mid
+            else:
+                hi_ = mid
+        pp = (lo_ + hi_) / 2
+    y = np.asarray(y, dtype=np.float64)
+    return T * 10 ** (-(M - W)) * (10 ** (y - W) - pp ** 2 * 10 ** (-(y - W) / pp) + pp ** 2 - 1)
+
+
 def rfrac(q):
     return q[0] / q[1]
 
@@ -159,11 +177,10 @@ def check_edges(x, col, e, p, ovr, src=None, state=None):
             neg = bool(np.any(np.asarray(x[:, col].view(np.ndarray)) < 0))
             if (src['W'] == 'from-most-negative-event') != (neg and 'W' not in ovr):
                 return 'logicle-W-source'
-            t = FlowCal.plot._LogicleTransform(T=T, M=M, W=Wd)
         else:
-            t = FlowCal.plot._LogicleTransform(data=x, channel=col, **ovr)
+            raise tlc.MachineryError('C19: logicle scenario without parameter sources')
         fr = [rfrac(q) for q in p['fracs']] if p['fracs'] else list(np.linspace(rfrac(p['first']), rfrac(p['last']), n + 1))
-        ref = t.transform_non_affine(np.array(fr) * float(t.M))
+        ref = logicle_forward(np.array(fr) * float(M), float(T), float(M), float(Wd))
         # (single-precision samples: the library derives W from a float32 minimum)
         rt = 5e-6 if x.dtype == np.float32 else 1e-9
         if not np.allclose(e, ref, rtol=rt, atol=rt * max(1.0, abs(hi))):
